@@ -177,7 +177,12 @@ def render(f, plain=False):
     if f.get("end") and not plain:
         out.append(L.pick(INDENTS) + "End" + trailing())
         filler()
-    return nl.join(out) + nl
+    text = nl.join(out) + nl
+    if f.get("nofinal") and not plain and out and ("#" in out[-1] or out[-1].strip(" \t") == ""):
+        # no line end after the last line: accepted when that line is a comment, ends in one or is blank
+        # (a statement directly followed by the end of the text is refused by the grammar, DESIGN 6)
+        text = text[: -len(nl)]
+    return text
 
 
 # ---------------------------------------------------------------------------------------------
@@ -288,7 +293,8 @@ def inert_statement(draw, pool, kinds=None):
 
 
 def file_flags(draw):
-    return {"layout": draw(layout_ints), "crlf": draw(st.integers(0, 5)) == 0, "end": draw(st.integers(0, 3)) == 0}
+    return {"layout": draw(layout_ints), "crlf": draw(st.integers(0, 5)) == 0, "end": draw(st.integers(0, 3)) == 0,
+            "nofinal": draw(st.sampled_from((False,) * 4 + (True,)))}
 
 
 # ---------------------------------------------------------------------------------------------
